@@ -130,6 +130,29 @@ let parse_req c : (z * request) option =
   | _ -> None
 
 let unmodelled = ref false
+let store_kind = ref ""
+let store_ops : sop list Stdlib.ref = ref []
+
+let pr_sres tag id i (r : sres) (is_keys_op : bool) nokeys =
+  let body =
+    if is_keys_op && nokeys then "nokeys" else
+    match r with
+    | ROk -> "ok"
+    | RVal v -> "val " ^ hex v
+    | RNotExist -> "notexist"
+    | RFail -> "fail"
+    | RKeys l -> Printf.sprintf "keys %d%s" (List.length l) (String.concat "" (List.map (fun k -> " " ^ hex k) l)) in
+  print_endline (Printf.sprintf "%s %s %d %s" tag id i body)
+
+let store_end () =
+  let ops = List.rev !store_ops in
+  let is_keys = List.map (fun o -> match o with OKeys _ -> true | _ -> false) ops in
+  let nokeys = (!store_kind = "mem") in
+  let spec = run_ops spec_step [] ops in
+  let modl = if !store_kind = "mem" then spec else run_ops fs_step [] ops in
+  List.iteri (fun i r -> pr_sres "SR" !case_id i r (List.nth is_keys i) nokeys) modl;
+  List.iteri (fun i r -> pr_sres "SS" !case_id i r (List.nth is_keys i) nokeys) spec
+
 let unmodelled_any = ref false
 
 let handle_line line =
@@ -155,6 +178,8 @@ let handle_line line =
       let r1 = read_rep () in
       let r2 = read_rep () in
       case_script := ((delay, r1), r2) :: !case_script
+  | "END" when !store_kind <> "" ->
+      store_end (); store_kind := ""
   | "END" ->
       if !unmodelled then print_endline (Printf.sprintf "X %s 0 0 0 U 0 1 0" !case_id)
       else begin
@@ -183,6 +208,17 @@ let handle_line line =
       (match parse_imf_fixdate (next_b c) with
        | Some t -> print_endline ("T " ^ dec_of_z t)
        | None -> print_endline "T -")
+  | "SCASE" ->
+      case_id := next c; store_kind := next c; store_ops := []
+  | "OP" ->
+      let k = next c in
+      let op = match k with
+        | "S" -> let key = next_b c in let v = next_b c in OSet (key, v)
+        | "G" -> OGet (next_b c)
+        | "D" -> ODel (next_b c)
+        | "K" -> OKeys (next_b c)
+        | _ -> OReopen in
+      store_ops := op :: !store_ops
   | t -> failwith ("unknown command " ^ t)
 
 
